@@ -112,3 +112,12 @@ package aggregator
 //@ func DefaultReporterConfig
 //@ props C06 C17
 //@ ensures [default-queue] result.SampleQueueSize == 131072
+
+//@ struct ReporterConfig
+//@ props C06 C17
+//@ tag SampleQueueSize validate min=1
+//@ tag SampleQueueSize config sample-queue-size
+
+//@ struct EncoderAggregatorConfig
+//@ props C06 C17
+//@ tag Sink validate required
